@@ -505,6 +505,15 @@ def run(fx, tier):
 
 
 # ---------------------------------------------------------------------------------------------- framing fit
+def _noid(t):
+    """canonical form without declaration ids (static members of different instantiations of one template)"""
+    if isinstance(t, tuple):
+        if len(t) == 3 and t[0] == 'ref' and isinstance(t[2], int):
+            return ('ref', t[1])
+        return tuple(_noid(x) for x in t)
+    return t
+
+
 def _lin(f, x, sign, out, depth=0):
     """linear form of an integral expression: {canonical term: coefficient}; constants under key 1"""
     x = f.resolve(x) if isinstance(x, dict) and x.get('k') == 'elem' else x
@@ -522,14 +531,14 @@ def _lin(f, x, sign, out, depth=0):
         _lin(f, x['r'], sign if x['op'] == '+' else -sign, out, depth + 1)
         return
     if x.get('k') == 'call' and x.get('op') == '-' and len(x.get('args', [])) == 2:      # iterator difference b - a
-        key = 'dist(%r,%r)' % (canon(x['args'][1]), canon(x['args'][0]))
+        key = 'dist(%r,%r)' % (_noid(canon(x['args'][1])), _noid(canon(x['args'][0])))
         out[key] = out.get(key, 0) + sign
         return
     if is_call(x, 'distance') and len(x.get('args', [])) == 2:
-        key = 'dist(%r,%r)' % (canon(x['args'][0]), canon(x['args'][1]))
+        key = 'dist(%r,%r)' % (_noid(canon(x['args'][0])), _noid(canon(x['args'][1])))
         out[key] = out.get(key, 0) + sign
         return
-    key = repr(canon(x))
+    key = repr(_noid(canon(x)))
     out[key] = out.get(key, 0) + sign
 
 
@@ -546,7 +555,7 @@ def frame_fit(fx, v):
                 continue
             for b, i, l, c in g.calls():
                 if callee_name(c) == 'resize' and 'obj' in c and is_member_of_this(c['obj'], '_read_buff'):
-                    cap = repr(canon(origin(g, c['args'][0])))
+                    cap = repr(_noid(canon(origin(g, c['args'][0]))))
         if cap is None:
             raise AnalysisBroken('assemble_op::perform: _read_buff.resize(capacity) not found')
         # the Remaining Length: result of type_parse(..., varint_)
